@@ -1204,9 +1204,14 @@ def campaign_proc(ctx):
 PADDR = {2: ADDR_P2, 3: ADDR_P3, 9: ADDR_ABSENT}
 
 
-def gen_proc_ops(rng, n):
+def gen_proc_ops(rng, n, bursts=False):
     ops = []
     for _ in range(n):
+        if bursts and rng.chance(1, 4):
+            inner = [x for x in gen_proc_ops(rng, rng.range(2, 4)) if x[0] not in ('Adv', 'PeerAccept', 'Remove')]
+            if len(inner) >= 2:
+                ops.append(['burst', inner])
+                continue
         r = rng.below(100)
         a = rng.choice([2, 2, 3, 3, 9])
         h = rng.choice([1, 1, 2, 2, 3, 0x0123])
@@ -1259,7 +1264,10 @@ def _abs_event(p):
 
 
 async def _run_proc_ops(ops):
-    """Returns (executed model ops as Coq text list, abstract events at the CUT host, oracle ledger)."""
+    """ops: steps; a step ['burst', [step, ...]] issues its steps back to back, without giving the
+    link a loop turn in between (commands while PDUs are in flight); every other step is followed by
+    a settle.  Returns (groups of executed model ops as Coq text, abstract events at the CUT host,
+    oracle ledger, events the model does not describe)."""
     from bumble import hci, link as blink
     from bumble.controller import Controller
     A = lambda k: hci.Address(PADDR[k], hci.Address.PUBLIC_DEVICE_ADDRESS)
@@ -1272,7 +1280,16 @@ async def _run_proc_ops(ops):
         peers[k] = Controller(f'p{k}', host_sink=ps, link=the_link, public_address=PADDR[k])
         peers[k].test_sink = ps
     removed = set()
-    model_ops = []
+    model_groups = []
+    issued = {}                  # opcode -> [(kind, step), ...] commands sent to the CUT, oldest first
+    flat = []
+    for step in ops:
+        if step[0] == 'burst':
+            inner = [x for x in step[1] if x[0] not in ('Adv', 'PeerAccept', 'Remove', 'burst')]
+            for k, x in enumerate(inner):
+                flat.append((x, k == 0, k == len(inner) - 1))
+        else:
+            flat.append((step, True, True))
     pending_classic = set()      # addresses with an accepted, unconcluded Create Connection
     br_conn = set()
     ledger = []                  # [proc name, key, concluded?, open_ended?]
@@ -1284,9 +1301,12 @@ async def _run_proc_ops(ops):
             own_address_type=0, peer_address_type=0, peer_address=hci.Address.ANY,
             advertising_channel_map=7, advertising_filter_policy=0)
 
-    for o in ops:
+    for o, first, last in flat:
         kind = o[0]
         cmd = None
+        if first:
+            model_groups.append([])
+        model_ops = model_groups[-1]
         if kind == 'LeCreate':
             if o[1]:
                 cmd = hci.HCI_LE_Extended_Create_Connection_Command(
@@ -1341,11 +1361,10 @@ async def _run_proc_ops(ops):
             model_ops.append(f'PeerAccept {o[1]}')
         elif kind == 'PeerDisconnect':
             p = peers[o[1]]
-            if o[1] in removed or not p.le_connections:
-                continue
-            hnd = next(iter(p.le_connections.values())).handle
-            p.on_packet(bytes(hci.HCI_Disconnect_Command(connection_handle=hnd, reason=0x13)))
-            model_ops.append(f'PeerDisconnect {o[1]}')
+            if o[1] not in removed and p.le_connections:
+                hnd = next(iter(p.le_connections.values())).handle
+                p.on_packet(bytes(hci.HCI_Disconnect_Command(connection_handle=hnd, reason=0x13)))
+                model_ops.append(f'PeerDisconnect {o[1]}')
         elif kind == 'Remove':
             if o[1] in removed:
                 continue
@@ -1353,33 +1372,37 @@ async def _run_proc_ops(ops):
             removed.add(o[1])
             model_ops.append(f'Remove {o[1]}')
         if cmd is not None:
+            issued.setdefault(cmd.op_code, []).append((kind, o))
             try:
                 cut.on_packet(bytes(cmd))
             except Exception as e:      # noqa
                 ledger.append(['exception', type(e).__name__, False, False])
+        if not last:
+            continue
         await settle()
         # completion ledger, from the CUT's host events only
         new = [_abs_event(p) for p in sink.packets[seen:]]
         seen = len(sink.packets)
         for ev in new:
-            if ev is None:
+            if ev is None or ev[0] not in (0, 1) or not issued.get(ev[1]):
                 continue
-            if ev[0] == 0 and ev[2] == 0 and cmd is not None and ev[1] == cmd.op_code:
-                if kind == 'LeCreate':
-                    ledger.append(['le-create', o[2], False, True])
-                elif kind == 'Disconnect':
-                    ledger.append(['disconnect', o[1], False, False])
-                elif kind == 'ReadFeat':
-                    gone = any(c.handle == o[1] and k in removed for k in (2, 3)
+            kind_i, oi = issued[ev[1]].pop(0)       # replies come in command order
+            if ev[0] == 0 and ev[2] == 0:
+                if kind_i == 'LeCreate':
+                    ledger.append(['le-create', oi[2], False, True])
+                elif kind_i == 'Disconnect':
+                    ledger.append(['disconnect', oi[1], False, False])
+                elif kind_i == 'ReadFeat':
+                    gone = any(c.handle == oi[1] and k in removed for k in (2, 3)
                                for c in cut.le_connections.values() if bytes(c.peer_address) == bytes(A(k)))
-                    ledger.append(['le-read-remote-features', o[1], False, False, gone])
-                elif kind == 'Encrypt':
-                    ledger.append(['le-enable-encryption', o[1], False, False])
-                elif kind == 'ClassicCreate':
-                    ledger.append(['classic-create', o[1], False, True])
-                    pending_classic.add(o[1])
-                elif kind == 'RemoteName':
-                    ledger.append(['remote-name', o[1], False, False])
+                    ledger.append(['le-read-remote-features', oi[1], False, False, gone])
+                elif kind_i == 'Encrypt':
+                    ledger.append(['le-enable-encryption', oi[1], False, False])
+                elif kind_i == 'ClassicCreate':
+                    ledger.append(['classic-create', oi[1], False, True])
+                    pending_classic.add(oi[1])
+                elif kind_i == 'RemoteName':
+                    ledger.append(['remote-name', oi[1], False, False])
         for ev in new:
             if ev is None:
                 continue
@@ -1415,7 +1438,7 @@ async def _run_proc_ops(ops):
                 br_conn.discard(k)
     events = [_abs_event(p) for p in sink.packets]
     unknown = [p.hex() for p in sink.packets if _abs_event(p) is None]
-    return model_ops, events, ledger, unknown
+    return [g for g in model_groups if g], events, ledger, unknown
 
 
 def campaign_proc_model(ctx):
@@ -1428,17 +1451,29 @@ def campaign_proc_model(ctx):
         [['LeCreate', 0, 2], ['Adv', 2], ['PeerDisconnect', 2], ['ReadFeat', 1], ['Encrypt', 1]],
         [['LeCreate', 0, 2], ['Adv', 2], ['Remove', 2], ['Encrypt', 1], ['Disconnect', 1]],
     ]
-    for _ in range(ctx.n(250, 20000)):
-        cases.append(gen_proc_ops(rng, rng.choice([3, 6, 10, 16])))
+    # commands issued while PDUs are in flight (no loop turn between the steps of a burst)
+    cases += [
+        [['LeCreate', 0, 2], ['Adv', 2], ['burst', [['PeerDisconnect', 2], ['ReadFeat', 1]]]],
+        [['LeCreate', 0, 2], ['Adv', 2], ['burst', [['ReadFeat', 1], ['Disconnect', 1], ['LeCreate', 0, 2]]], ['Adv', 2],
+         ['ReadFeat', 1]],
+        [['LeCreate', 0, 2], ['Adv', 2], ['burst', [['ReadFeat', 1], ['ReadFeat', 1], ['Encrypt', 1], ['PeerDisconnect', 2],
+                                                    ['Disconnect', 1]]]],
+        [['burst', [['ClassicCreate', 3], ['ClassicCreate', 3], ['RemoteName', 3], ['LeCreate', 1, 2], ['LeCancel']]],
+         ['PeerAccept', 3], ['burst', [['Disconnect', 1], ['ClassicCreate', 3]]]],
+    ]
+    for k in range(ctx.n(250, 20000)):
+        cases.append(gen_proc_ops(rng, rng.choice([3, 6, 10, 16]), bursts=(k % 2 == 1)))
     runs, exprs = [], []
     for ops in cases:
-        (model_ops, events, ledger, unknown), errors = run_async(_run_proc_ops, ops)
-        runs.append((ops, model_ops, events, ledger, unknown, errors))
-        exprs.append(f'run_obs [2; 3] (settled [{"; ".join(model_ops)}])')
+        (groups, events, ledger, unknown), errors = run_async(_run_proc_ops, ops)
+        runs.append((ops, groups, events, ledger, unknown, errors))
+        exprs.append('groups_obs [2; 3] [' + '; '.join('[' + '; '.join(g) + ']' for g in groups) + ']')
     model = ctx.coq_eval(['Model.CtrlProc'], exprs)
-    for (ops, model_ops, events, ledger, unknown, errors), m in zip(runs, model):
+    for (ops, groups, events, ledger, unknown, errors), m in zip(runs, model):
+        model_ops = [x for g in groups for x in g]
         ctx.case(('C2', ops), len(model_ops) >= 3, {'kind': 'procops', 'ops': ops} if ctx.evaluations % 200 == 11 else None)
         ctx.count('C2.sequences')
+        ctx.count('C2.bursts', sum(1 for g in groups if len(g) > 1))
         ctx.count('C2.ops', len(model_ops))
         ctx.count('C2.callback_errors', len(errors))
         replay = {'kind': 'procops', 'ops': ops}
@@ -1477,6 +1512,13 @@ def regen(ctx):
     from translate import c03_skeleton
     text, info = c03_skeleton.translate()      # also loads the driver / vendor command classes
     ctx.write_gen('C03Skeleton', text)
+    from translate import c03_hostshape, c03_procshape
+    htext, hinfo = c03_hostshape.translate()
+    ctx.write_gen('C03HostShape', htext)
+    ptext, prows = c03_procshape.translate()
+    ctx.write_gen('C03ProcShape', ptext)
+    ctx.extra['B_host_shape'] = hinfo
+    ctx.extra['C_functions_pinned'] = [n for n, _ in prows]
     rows = info['rows']
     ctx.extra['A_table'] = {
         'rows': len(rows),
@@ -1626,11 +1668,12 @@ def replay(ctx, obj):
                 print(f' command {c}: opcode {op:#06x} -> response {got}')
         print('oracle:', 'holds' if max_out <= 1 and all(op == got for op, got in results) else 'fails')
     elif r['kind'] == 'procops':
-        (model_ops, events, ledger, unknown), errors = run_async(_run_proc_ops, r['ops'])
-        print('model schedule:', model_ops)
+        (groups, events, ledger, unknown), errors = run_async(_run_proc_ops, r['ops'])
+        print('model schedule (groups, link drained after each):', groups)
         print('events at the host:', events, unknown)
         print('ledger [procedure, key, concluded, open-ended]:', ledger)
-        print('model:', ctx.coq_eval(['Model.CtrlProc'], [f'run_obs [2; 3] (settled [{"; ".join(model_ops)}])'])[0])
+        print('model:', ctx.coq_eval(['Model.CtrlProc'],
+                                     ['groups_obs [2; 3] [' + '; '.join('[' + '; '.join(g) + ']' for g in groups) + ']'])[0])
     elif r['kind'] == 'proc':
         for name, situation, steps, expect in proc_scenarios():
             if name == r['name']:
